@@ -230,6 +230,21 @@ class NpShim(object):
             raise Unsupported("np.array of a list of proxies")
         return _np.array(x, dtype, **k) if dtype is not None else _np.array(x, **k)
 
+    @staticmethod
+    def asarray(x, dtype=None, **k):
+        if isinstance(x, SArr):
+            use("np.asarray")
+            # the underlying data of a (masked) array, without copying: same store, no mask
+            out = SArr(x.axes, None, x.dtype, x.sel, None, store=x.store, flat=x.flat, tmap=x.tmap)
+            if dtype in (float, "float") and x.dtype != "float":
+                return out.astype(float)
+            return out
+        if isinstance(x, (SNum, SBool)):
+            return x
+        if any_sym((x,)):
+            raise Unsupported("np.asarray of a list of proxies")
+        return _np.asarray(x, dtype, **k) if dtype is not None else _np.asarray(x, **k)
+
     # ---- reductions
     @staticmethod
     def sum(a, axis=None):
